@@ -14,6 +14,7 @@ pub enum PT {
     I32,
     U8,
     Str,
+    Unit,
     Tup(Vec<PT>),
     E,       // enum E { A, B(bool), C(bool, int32) }
     E2,      // enum E2 { X, Y(bool) }
@@ -21,8 +22,10 @@ pub enum PT {
     S,       // struct S { f: bool, g: E2 }
 }
 
-pub const TYPES: [&str; 14] =
-    ["bool", "int32", "uint8", "string", "(bool,bool)", "(bool,int32)", "E", "Opt[bool]", "S", "(E2,E2)", "(int32,int32)", "(string,int32)", "(int32,string)", "(int32,int32,int32)"];
+pub const TYPES: [&str; 18] = [
+    "bool", "int32", "uint8", "string", "(bool,bool)", "(bool,int32)", "E", "Opt[bool]", "S", "(E2,E2)", "(int32,int32)", "(string,int32)", "(int32,string)", "(int32,int32,int32)", "unit", "(E2,unit)",
+    "(unit,E2)", "(bool,unit)",
+];
 
 fn pt_of(name: &str) -> PT {
     match name {
@@ -30,6 +33,10 @@ fn pt_of(name: &str) -> PT {
         "int32" => PT::I32,
         "uint8" => PT::U8,
         "string" => PT::Str,
+        "unit" => PT::Unit,
+        "(E2,unit)" => PT::Tup(vec![PT::E2, PT::Unit]),
+        "(unit,E2)" => PT::Tup(vec![PT::Unit, PT::E2]),
+        "(bool,unit)" => PT::Tup(vec![PT::Bool, PT::Unit]),
         "(bool,bool)" => PT::Tup(vec![PT::Bool, PT::Bool]),
         "(bool,int32)" => PT::Tup(vec![PT::Bool, PT::I32]),
         "E" => PT::E,
@@ -49,6 +56,7 @@ fn ty_of(p: &PT) -> Ty {
         PT::I32 => Ty::i32(),
         PT::U8 => Ty::Int(IntKind::U8),
         PT::Str => Ty::Str,
+        PT::Unit => Ty::Unit,
         PT::Tup(ts) => Ty::Tuple(ts.iter().map(ty_of).collect()),
         PT::E => Ty::named("E"),
         PT::E2 => Ty::named("E2"),
@@ -64,6 +72,7 @@ fn values(p: &PT) -> Vec<E> {
         PT::I32 => vec![int(0), int(1), int(5)],
         PT::U8 => vec![E::Int(0, IntKind::U8, true), E::Int(1, IntKind::U8, true), E::Int(200, IntKind::U8, true)],
         PT::Str => vec![s("a"), s("b"), s("zz")],
+        PT::Unit => vec![E::Unit],
         PT::Tup(ts) => {
             let mut acc: Vec<Vec<E>> = vec![vec![]];
             for t in ts {
@@ -139,6 +148,7 @@ fn patterns(p: &PT, depth: u32) -> Vec<Pat> {
             v.push(Pat::Str("a".into()));
             v.push(Pat::Str("b".into()));
         }
+        PT::Unit => v.push(Pat::Unit),
         _ if depth == 0 => {}
         PT::Tup(ts) => {
             // multi-column matrices over literal-typed columns: sub-alphabet {_, lit0, lit1}
@@ -228,6 +238,7 @@ fn render(e: E, t: &PT) -> E {
         PT::I32 => i2s(e),
         PT::U8 => bi("uint8_to_string", vec![e]),
         PT::Str => e,
+        PT::Unit => bi("unit_to_string", vec![e]),
         PT::Tup(ts) => call(&tup_fn_name(ts), vec![e]),
         PT::E => call("strE", vec![e]),
         PT::E2 => call("strE2", vec![e]),
@@ -245,6 +256,7 @@ fn tup_fn_name(ts: &[PT]) -> String {
             PT::E2 => "E",
             PT::Str => "S",
             PT::U8 => "U",
+            PT::Unit => "N",
             _ => "X",
         });
     }
@@ -345,6 +357,9 @@ fn type_items(n: &mut Names) -> Vec<Item> {
     items.push(tup_render_fn(&[PT::Str, PT::I32], n));
     items.push(tup_render_fn(&[PT::I32, PT::Str], n));
     items.push(tup_render_fn(&[PT::I32, PT::I32, PT::I32], n));
+    items.push(tup_render_fn(&[PT::E2, PT::Unit], n));
+    items.push(tup_render_fn(&[PT::Unit, PT::E2], n));
+    items.push(tup_render_fn(&[PT::Bool, PT::Unit], n));
     items.push(fn_def(
         "strS",
         vec![(e, Ty::named("S"))],
@@ -473,7 +488,7 @@ pub struct Patterns;
 
 fn depth_for(ty: &str) -> u32 {
     match ty {
-        "(E2,E2)" | "S" => 2,
+        "(E2,E2)" | "S" | "(E2,unit)" | "(unit,E2)" => 2,
         _ => 1,
     }
 }
@@ -500,7 +515,7 @@ fn specs(tier: Tier) -> Vec<Spec> {
             loop {
                 for catch_all in [false, true] {
                     for int_result in [false, true] {
-                        if tier == Tier::Quick && int_result && (np > 12 || rcount == 3) {
+                        if tier == Tier::Quick && int_result && ((np > 12 && rcount > 1) || rcount == 3) {
                             continue;
                         }
                         // 4 rows (thorough only): unit result; for the tuple types only with a catch-all
@@ -562,7 +577,7 @@ impl Family for Patterns {
         &["C06", "C01", "C02", "C04"]
     }
     fn rule(&self) -> &'static str {
-        "scrutinee types {bool,int32,uint8,string,(bool,bool),(bool,int32),E,Opt[bool],S,(E2,E2),(int32,int32),(string,int32),(int32,string),(int32,int32,int32)}; all patterns (wildcard, variable, 2 literals, constructor/tuple/struct with sub-patterns; depth 2 for S and (E2,E2); struct patterns with the fields in declaration order and in the other order; columns of all-literal-typed tuples use {_, lit0, lit1}); all matrices of <= 3 rows for types with <= 12 patterns, else <= 2 rows, plus the 4-row matrices of (int32,int32) over the 8 tuple patterns with a literal, with a catch-all (quick) / <= 4 rows for <= 12 patterns (unit result; tuple types with a catch-all only), <= 3 rows for <= 30 patterns, else 2 (thorough), with and without a trailing catch-all, results unit and int32; every destructuring let; matrices of <= 2 rows also with the scrutinee held in a variable that is matched twice; each matrix applied to every value of the type (one program per value when some value matches no row); the scrutinee is an effect probe; each arm prints its index and every variable it binds. non-trivial = matrices where a row other than the first is selected for some value, or some value matches no row; distinct = distinct source text"
+        "scrutinee types {bool,int32,uint8,string,(bool,bool),(bool,int32),E,Opt[bool],S,(E2,E2),(int32,int32),(string,int32),(int32,string),(int32,int32,int32),unit,(E2,unit),(unit,E2),(bool,unit)}; all patterns (wildcard, variable, 2 literals, constructor/tuple/struct with sub-patterns; depth 2 for S, (E2,E2), (E2,unit) and (unit,E2); struct patterns with the fields in declaration order and in the other order; columns of all-literal-typed tuples use {_, lit0, lit1}); all matrices of <= 3 rows for types with <= 12 patterns, else <= 2 rows, plus the 4-row matrices of (int32,int32) over the 8 tuple patterns with a literal, with a catch-all (quick) / <= 4 rows for <= 12 patterns (unit result; tuple types with a catch-all only), <= 3 rows for <= 30 patterns, else 2 (thorough), with and without a trailing catch-all, results unit and int32; every destructuring let; matrices of <= 2 rows also with the scrutinee held in a variable that is matched twice; each matrix applied to every value of the type (one program per value when some value matches no row); the scrutinee is an effect probe; each arm prints its index and every variable it binds. non-trivial = matrices where a row other than the first is selected for some value, or some value matches no row; distinct = distinct source text"
     }
     fn cases(&self, tier: Tier) -> Box<dyn Iterator<Item = Value> + '_> {
         let n = specs(tier).len();
@@ -620,6 +635,11 @@ impl Family for Patterns {
                 };
                 let mut sub = Report::default();
                 let res = differential(&prog, &site, "patterns", &subcase, ctx, &opts, &mut sub);
+                if let Ok(want) = std::env::var("GOMLMC_PAT_DEBUG") {
+                    if site.contains(&want) {
+                        eprintln!("PAT_DEBUG {} {} tags={:?}\n{}", site, subcase, sub.tags.iter().filter(|t| !t.starts_with("go-rule")).collect::<Vec<_>>(), crate::ug::print::print_main(&prog));
+                    }
+                }
                 // non-trivial: later row selected or no row
                 if let Some(d) = &res {
                     let out = lossy(&d.ref_obs.stdout);
